@@ -11,9 +11,12 @@ From Coq Require Import Sorting.Permutation.
 
 (* ---------- C06 bridge: the generated DOCUMENT of the pipeline projects onto C06's abstract generated object ----------
    Same name, namespace, kind and hashed content: the hash suffix the pipeline computes from the document
-   (content_of_node) is the hash C06's theorems (name = f(final content)) are about. *)
+   (content_of_node) is the hash C06's theorems (name = f(final content)) are about.
+   [literal_only secret g]: no env-file / file sources, and for a ConfigMap every value is valid UTF-8 (no binaryData);
+   the pipeline itself also models env files, file sources and binaryData (validated by correspondence). *)
 Theorem PIPE_generated_projection :
   forall secret g n,
+    literal_only secret g ->
     gen_node secret g = Ok n ->
     exists o, Generators.make_generated [] None (genargs_of secret g) = Ok o /\
               content_of_node n = Generators.content_of o /\
